@@ -605,9 +605,28 @@ func ruleVersionNegotiation(c *Ctx) {
 			if !ok || identObj(info, rs.X) != psVar {
 				return true
 			}
+			inRange := map[types.Object]bool{}
 			ast.Inspect(rs.Body, func(y ast.Node) bool {
-				if as, ok := y.(*ast.AssignStmt); ok && len(as.Lhs) == 1 && identObj(info, as.Lhs[0]) == ptVar {
-					okPT = true
+				if as, ok := y.(*ast.AssignStmt); ok {
+					for _, l := range as.Lhs {
+						if o := identObj(info, l); o != nil {
+							inRange[o] = true
+						}
+					}
+				}
+				return true
+			})
+			if inRange[ptVar] {
+				okPT = true
+			}
+			// or through one temporary assigned in the range (an inlined helper's result)
+			ast.Inspect(outer.Body, func(y ast.Node) bool {
+				if as, ok := y.(*ast.AssignStmt); ok && len(as.Lhs) == len(as.Rhs) {
+					for i, l := range as.Lhs {
+						if identObj(info, l) == ptVar && inRange[identObj(info, as.Rhs[i])] {
+							okPT = true
+						}
+					}
 				}
 				return true
 			})
